@@ -23,14 +23,6 @@ def has_empty_level(ops_prefix):
     return False
 
 
-def has_dollar_level(ops_prefix):
-    for op in ops_prefix:
-        t = _topic_arg(op)
-        if t is not None and b'/$' in t:
-            return True
-    return False
-
-
 def topics_oracle(op, impl, spec):
     return spec == '*' or impl == spec
 
@@ -44,7 +36,7 @@ register(Prop(
     runs=[Run('topics', quick=60000, thorough=400000, seeds_thorough=8),
           Run('topics-sweep', quick=3, thorough=4, seeds_thorough=1, exhaustive=True)],
     oracle=topics_oracle, nontrivial=topics_nontrivial, spec_total=False,
-    classes={'empty_level': has_empty_level, 'dollar_level': has_dollar_level},
+    classes={'empty_level': has_empty_level},
     assumptions=[
         "Go maps modelled as association lists with unique keys; results of map iteration compared as sorted lists",
         "subscribers are compared by pointer identity (the kinds the library uses); the reflect-based `equal` for other kinds is not modelled",
